@@ -5,10 +5,17 @@
   (`HState.init`, `HState.finalize`, `hmacInit`, `hmacUpdate`, `hmacFinalize`), for a state object and buffers lying anywhere with any defined labels;
   TJ.Props.C11 / C12 prove on the model that every chunking of a message through these operations equals the one-shot function.  Their
   `_never_taints` corollaries in TJ.Props.C07Gen extend the all-shapes constant-time statement to the incremental API.
+
+  `hash_streaming_source` and `hmac_streaming_source` put them together by induction over the list of pieces: init on a state object with any prior content, update over ANY
+  split of a message, finalize — the bytes written are `Spec.hash` / `Spec.hmac hash key` of the whole message: C11 and the streaming half of C12 stated on the regenerated code.
 -/
 import TJ.Proofs.PbkdfCore
 import TJ.Proofs.HashDf
 import TJ.Props.C11Gen
+import TJ.Props.C10
+import TJ.Props.C11
+import TJ.Props.C12
+import TJ.Proofs.PrngGenOut
 namespace TJ.Props.StreamGen
 open TJ TJ.MiniC TJ.MiniC.Hoare TJ.Gen.MiniC
 
@@ -162,5 +169,122 @@ theorem hash_update_source (st : St) (bs bi : Nat) (X XI : Array LByte) (baseS b
   unfold callFun
   simp only [List.length_cons, List.length_nil, List.range, List.range.loop, List.map, Bool.false_eq_true, if_false, Nat.zero_add]
   exact hx
+
+/-- a run of `tinyjambu_hash_update(state, p, |c|)` calls over consecutive pieces `c` of one buffer, starting at offset `off` -/
+inductive UpdRun (bs bi baseS basei : Nat) : St → Nat → List Bytes → St → Prop
+  | nil (st : St) (off : Nat) : UpdRun bs bi baseS basei st off [] st
+  | cons (st st1 st2 : St) (off fuel : Nat) (c : Bytes) (cs : List Bytes) :
+      callFun prog fuel idx_tinyjambu_hash_update false [(mkPtr bs baseS, .pub), (mkPtr bi (basei + off), .pub), (c.length, .pub)] st =
+        .ok .normal #[(0, .pub), (mkPtr bs baseS, .pub), (mkPtr bi (basei + off), .pub), (c.length, .pub)] st1 →
+      UpdRun bs bi baseS basei st1 (off + c.length) cs st2 → UpdRun bs bi baseS basei st off (c :: cs) st2
+
+/-- any sequence of update calls over the pieces of a message leaves the state object representing the fold of the model's `update` -/
+theorem hash_updates_source (bs bi baseS basei : Nat) (hne : bi ≠ bs) (halS : baseS % 4 = 0) (cs : List Bytes) :
+    ∀ (st : St) (off : Nat) (X XI : Array LByte) (h : HState), st.mem[bs]? = some ⟨X, baseS⟩ → st.mem[bi]? = some ⟨XI, basei⟩ → HObjV X h →
+      baseS + X.size < ptrBase → basei + XI.size < ptrBase → st.mem.size + 2 < 2 ^ 30 → BytesV XI off cs.flatten →
+      ∃ st' X', UpdRun bs bi baseS basei st off cs st' ∧ st'.ent = st.ent ∧ st'.mem.size = st.mem.size ∧ st'.mem[bs]? = some ⟨X', baseS⟩ ∧ X'.size = X.size ∧
+        HObjV X' (cs.foldl HState.update h) ∧ OthV bs st'.mem st.mem := by
+  induction cs with
+  | nil =>
+    intro st off X XI h hS _ ho _ _ _ _
+    exact ⟨st, X, UpdRun.nil st off, rfl, rfl, hS, rfl, ho, fun j _ => orel_eqv_refl _⟩
+  | cons c cs ih =>
+    intro st off X XI h hS hI ho hltS hltI hsz hd
+    have hfl : (c :: cs).flatten = c ++ cs.flatten := rfl
+    rw [hfl] at hd
+    have hdc : BytesV XI off c := by
+      have := bytesV_take' hd c.length
+      rwa [List.take_left'] at this; rfl
+    have hdr : BytesV XI (off + c.length) cs.flatten := by
+      have := bytesV_drop hd c.length (by simp)
+      rwa [List.drop_left'] at this; rfl
+    obtain ⟨fuel, st1, blk1, hrun, hent1, hmsz1, hb1, hbase1, hbsz1, ho1, hoth1⟩ := hash_update_source st bs bi X XI baseS basei off h c hS hI hne ho halS hltS hltI hsz hdc
+    have hS1 : st1.mem[bs]? = some ⟨blk1.bytes, baseS⟩ := by rw [hb1, ← hbase1]
+    obtain ⟨XI1, hI1, hI1s, hI1v⟩ := eqv_block (by have := hoth1 bi hne; rw [hI] at this; exact this)
+    obtain ⟨st2, X2, hrun2, hent2, hmsz2, hS2, hX2s, ho2, hoth2⟩ := ih st1 (off + c.length) blk1.bytes XI1 (h.update c) hS1 hI1 ho1 (by rw [hbsz1]; exact hltS) (by rw [hI1s]; exact hltI)
+      (by rw [hmsz1]; exact hsz) (bytesV_of_veq hI1v hdr)
+    exact ⟨st2, X2, UpdRun.cons st st1 st2 off fuel c cs hrun hrun2, hent2.trans hent1, hmsz2.trans hmsz1, hS2, hX2s.trans hbsz1, ho2, OthV.trans hoth2 hoth1⟩
+
+/-- **C11 on the regenerated source**: `tinyjambu_hash_init` on a state object with ANY prior content, then `tinyjambu_hash_update` over ANY split of a message into pieces,
+    then `tinyjambu_hash_finalize`, writes the one-shot digest of the whole message (`Spec.hash`, TJ.Props.C11.streaming, TJ.Props.C10.hash_is_mdph) -/
+theorem hash_streaming_source (st : St) (bs bi bo : Nat) (X XI XO : Array LByte) (baseS basei off baseo oo : Nat) (prior : HState) (cs : List Bytes)
+    (hS : st.mem[bs]? = some ⟨X, baseS⟩) (hI : st.mem[bi]? = some ⟨XI, basei⟩) (hO : st.mem[bo]? = some ⟨XO, baseo⟩) (hne : bi ≠ bs) (hno : bo ≠ bs)
+    (hXs : 52 ≤ X.size) (halS : baseS % 4 = 0) (hltS : baseS + X.size < ptrBase) (hltI : basei + XI.size < ptrBase) (hltO : baseo + XO.size < ptrBase)
+    (hin : oo + 32 ≤ XO.size) (hsz : st.mem.size + 2 < 2 ^ 30) (hd : BytesV XI off cs.flatten) :
+    ∃ fuel0 st0 st1 fuel2 st2 blkO, callFun prog fuel0 idx_tinyjambu_hash_init false [(mkPtr bs baseS, .pub)] st = .ok .normal #[(0, .pub), (mkPtr bs baseS, .pub)] st0 ∧
+      UpdRun bs bi baseS basei st0 off cs st1 ∧
+      callFun prog fuel2 idx_tinyjambu_hash_finalize false [(mkPtr bs baseS, .pub), (mkPtr bo (baseo + oo), .pub)] st1 =
+        .ok .normal #[(0, .pub), (mkPtr bs baseS, .pub), (mkPtr bo (baseo + oo), .pub)] st2 ∧
+      st2.mem[bo]? = some blkO ∧ blkO.base = baseo ∧
+      ∀ q b, (Spec.hash cs.flatten)[q]? = some b → ∃ l, blkO.bytes[oo + q]? = some (b, l) ∧ l ≠ Lab.undef := by
+  have hbsN := mem_lt hS
+  obtain ⟨f0, st0, X0, hr0, hent0, hmsz0, hS0, hX0s, ho0, hoth0⟩ := hash_init_source st bs baseS X prior hS hXs halS hltS hsz
+  have hI0 : st0.mem[bi]? = some ⟨XI, basei⟩ := by rw [hoth0 bi hne]; exact hI
+  obtain ⟨st1, X1, hr1, hent1, hmsz1, hS1, hX1s, ho1, hoth1⟩ := hash_updates_source bs bi baseS basei hne halS cs st0 off X0 XI prior.init hS0 hI0 ho0 (by rw [hX0s]; exact hltS) hltI
+    (by rw [hmsz0]; exact hsz) hd
+  obtain ⟨XO1, hO1, hO1s, _⟩ := eqv_block (by have := hoth1 bo hno; rw [hoth0 bo hno, hO] at this; exact this)
+  obtain ⟨f2, st2, blkS, blkO, hr2, _, _, _, _, _, _, g5, g6, _, g8, _⟩ := hash_finalize_source st1 bs bo X1 XO1 baseS baseo oo _ hS1 hO1 hno ho1 halS (by rw [hX1s, hX0s]; exact hltS)
+    (by rw [hO1s]; exact hltO) (by rw [hO1s]; exact hin) (by rw [hmsz1, hmsz0]; exact hsz)
+  rw [TJ.Props.C11.streaming prior cs, TJ.Props.C10.hash_is_mdph] at g8
+  exact ⟨f0, st0, st1, f2, st2, blkO, hr0, hr1, hr2, g5, g6, g8⟩
+
+/-- a run of `tinyjambu_hmac_update(state, p, |c|)` calls over consecutive pieces of one buffer -/
+inductive MUpdRun (bs bi baseS basei : Nat) : St → Nat → List Bytes → St → Prop
+  | nil (st : St) (off : Nat) : MUpdRun bs bi baseS basei st off [] st
+  | cons (st st1 st2 : St) (off fuel : Nat) (c : Bytes) (cs : List Bytes) :
+      callFun prog fuel idx_tinyjambu_hmac_update false [(mkPtr bs baseS, .pub), (mkPtr bi (basei + off), .pub), (c.length, .pub)] st =
+        .ok .normal #[(0, .pub), (mkPtr bs baseS, .pub), (mkPtr bi (basei + off), .pub), (c.length, .pub)] st1 →
+      MUpdRun bs bi baseS basei st1 (off + c.length) cs st2 → MUpdRun bs bi baseS basei st off (c :: cs) st2
+
+theorem hmac_updates_source (bs bi baseS basei : Nat) (hne : bi ≠ bs) (halS : baseS % 4 = 0) (cs : List Bytes) :
+    ∀ (st : St) (off : Nat) (X XI : Array LByte) (h : HState), st.mem[bs]? = some ⟨X, baseS⟩ → st.mem[bi]? = some ⟨XI, basei⟩ → HObjV X h →
+      baseS + X.size < ptrBase → basei + XI.size < ptrBase → st.mem.size + 2 < 2 ^ 30 → BytesV XI off cs.flatten →
+      ∃ st' X', MUpdRun bs bi baseS basei st off cs st' ∧ st'.ent = st.ent ∧ st'.mem.size = st.mem.size ∧ st'.mem[bs]? = some ⟨X', baseS⟩ ∧ X'.size = X.size ∧
+        HObjV X' (cs.foldl hmacUpdate h) ∧ OthV bs st'.mem st.mem := by
+  induction cs with
+  | nil =>
+    intro st off X XI h hS _ ho _ _ _ _
+    exact ⟨st, X, MUpdRun.nil st off, rfl, rfl, hS, rfl, ho, fun j _ => orel_eqv_refl _⟩
+  | cons c cs ih =>
+    intro st off X XI h hS hI ho hltS hltI hsz hd
+    have hfl : (c :: cs).flatten = c ++ cs.flatten := rfl
+    rw [hfl] at hd
+    have hdc : BytesV XI off c := by
+      have := bytesV_take' hd c.length
+      rwa [List.take_left'] at this; rfl
+    have hdr : BytesV XI (off + c.length) cs.flatten := by
+      have := bytesV_drop hd c.length (by simp)
+      rwa [List.drop_left'] at this; rfl
+    obtain ⟨fuel, st1, X1, hrun, hent1, hmsz1, hS1, hX1s, ho1, hoth1⟩ := hmac_update_source st bs bi X XI baseS basei off h c hS hI hne ho halS hltS hltI hsz hdc
+    obtain ⟨XI1, hI1, hI1s, hI1v⟩ := eqv_block (by have := hoth1 bi hne; rw [hI] at this; exact this)
+    obtain ⟨st2, X2, hrun2, hent2, hmsz2, hS2, hX2s, ho2, hoth2⟩ := ih st1 (off + c.length) X1 XI1 (hmacUpdate h c) hS1 hI1 ho1 (by rw [hX1s]; exact hltS) (by rw [hI1s]; exact hltI)
+      (by rw [hmsz1]; exact hsz) (bytesV_of_veq hI1v hdr)
+    exact ⟨st2, X2, MUpdRun.cons st st1 st2 off fuel c cs hrun hrun2, hent2.trans hent1, hmsz2.trans hmsz1, hS2, hX2s.trans hX1s, ho2, OthV.trans hoth2 hoth1⟩
+
+/-- **C12 (streaming form) on the regenerated source**: `tinyjambu_hmac_init` on a state object with ANY prior content, `tinyjambu_hmac_update` over ANY split of the message,
+    `tinyjambu_hmac_finalize` with the same key: the 32 bytes written are RFC 2104 HMAC over the library's hash of the whole message (TJ.Props.C12.hmac_streaming_rfc2104) -/
+theorem hmac_streaming_source (st : St) (bs bk bi bo : Nat) (X XK XI XO : Array LByte) (baseS basek koff basei off baseo oo : Nat) (prior : HState) (key : Bytes) (cs : List Bytes)
+    (hS : st.mem[bs]? = some ⟨X, baseS⟩) (hK : st.mem[bk]? = some ⟨XK, basek⟩) (hI : st.mem[bi]? = some ⟨XI, basei⟩) (hO : st.mem[bo]? = some ⟨XO, baseo⟩)
+    (hnk : bk ≠ bs) (hne : bi ≠ bs) (hno : bo ≠ bs) (hXs : 52 ≤ X.size) (halS : baseS % 4 = 0)
+    (hltS : baseS + X.size < ptrBase) (hltK : basek + XK.size < ptrBase) (hltI : basei + XI.size < ptrBase) (hltO : baseo + XO.size < ptrBase)
+    (hkd : BytesV XK koff key) (hin : oo + 32 ≤ XO.size) (hsz : st.mem.size + 5 < 2 ^ 30) (hd : BytesV XI off cs.flatten) :
+    ∃ fuel0 st0 st1 fuel2 st2 XO', callFun prog fuel0 idx_tinyjambu_hmac_init false [(mkPtr bs baseS, .pub), (mkPtr bk (basek + koff), .pub), (key.length, .pub)] st =
+        .ok .normal #[(0, .pub), (mkPtr bs baseS, .pub), (mkPtr bk (basek + koff), .pub), (key.length, .pub)] st0 ∧
+      MUpdRun bs bi baseS basei st0 off cs st1 ∧
+      callFun prog fuel2 idx_tinyjambu_hmac_finalize false [(mkPtr bs baseS, .pub), (mkPtr bk (basek + koff), .pub), (key.length, .pub), (mkPtr bo (baseo + oo), .pub)] st1 =
+        .ok .normal #[(0, .pub), (mkPtr bs baseS, .pub), (mkPtr bk (basek + koff), .pub), (key.length, .pub), (mkPtr bo (baseo + oo), .pub)] st2 ∧
+      st2.mem[bo]? = some ⟨XO', baseo⟩ ∧ BytesV XO' oo (Spec.hmac hash key cs.flatten) := by
+  obtain ⟨f0, st0, X0, hr0, hent0, hmsz0, hS0, hX0s, ho0, hoth0⟩ := hmac_init_source st bs bk X XK baseS basek koff prior key hS hK hnk hXs halS hltS hltK hkd (by omega)
+  obtain ⟨XI0, hI0, hI0s, hI0v⟩ := eqv_block (by have := hoth0 bi hne; rw [hI] at this; exact this)
+  obtain ⟨st1, X1, hr1, hent1, hmsz1, hS1, hX1s, ho1, hoth1⟩ := hmac_updates_source bs bi baseS basei hne halS cs st0 off X0 XI0 (hmacInit prior key) hS0 hI0 ho0 (by rw [hX0s]; exact hltS)
+    (by rw [hI0s]; exact hltI) (by rw [hmsz0]; omega) (bytesV_of_veq hI0v hd)
+  have heq1 : ∀ j, j ≠ bs → ORel BlockEqV st1.mem[j]? st.mem[j]? := fun j hj =>
+    orel_trans (R := BlockEqV) (fun _ _ _ p q => BlockEqV.trans p q) (hoth1 j hj) (hoth0 j hj)
+  obtain ⟨XK1, hK1, hK1s, hK1v⟩ := eqv_block (by have := heq1 bk hnk; rw [hK] at this; exact this)
+  obtain ⟨XO1, hO1, hO1s, _⟩ := eqv_block (by have := heq1 bo hno; rw [hO] at this; exact this)
+  obtain ⟨f2, st2, X2, XO2, hr2, _, _, _, _, _, g4, _, g6, _⟩ := hmac_finalize_source st1 bs bk bo X1 XK1 XO1 baseS basek koff baseo oo _ key hS1 hK1 hO1 hnk hno ho1 halS
+    (by rw [hX1s, hX0s]; exact hltS) (by rw [hK1s]; exact hltK) (by rw [hO1s]; exact hltO) (bytesV_of_veq hK1v hkd) (by rw [hO1s]; exact hin) (by rw [hmsz1, hmsz0]; exact hsz)
+  rw [TJ.Props.C12.hmac_streaming_rfc2104 prior key cs] at g6
+  exact ⟨f0, st0, st1, f2, st2, XO2, hr0, hr1, hr2, g4, g6⟩
 
 end TJ.Props.StreamGen
